@@ -5,6 +5,8 @@ Alias kinds of a value, relative to the roots (receiver `self` and parameters):
    S  a *fresh* container/object whose elements/fields alias reachable objects
       (x.copy(), list(x), x[a:b], sorted(x), filter(f, x), [e for e in x], Cls(x))
       - mutating the container itself is harmless, its elements are R
+   SS a fresh container whose elements are themselves fresh containers of reachable objects
+      ([[e] for e in x], [list(g) for g in groups]): an element of it is S, so appending to `stems[-1]` is harmless
    None  fresh
 Name kinds are joined flow-insensitively over all bindings (R > S > None), so an alias is never lost.
 Interprocedural: repo callees are summarised per tuple of argument kinds (memoised, depth-bounded).
@@ -25,7 +27,14 @@ MUTATORS = {
 COPIERS = {"list", "sorted", "reversed", "filter", "tuple", "set", "frozenset", "iter", "enumerate", "zip", "map", "dict"}
 FRESH_CALLS = {"groupby", "deepcopy", "len", "str", "int", "float", "bool", "range", "sum", "min", "max", "any", "all", "repr", "hash", "join", "format"}
 STR_METHODS = set(dir(str)) | set(dir(int)) | set(dir(float))
-RANK = {None: 0, "S": 1, "R": 2}
+RANK = {None: 0, "SS": 1, "S": 2, "R": 3}
+
+
+def _fresh_display(e: ast.AST) -> bool:
+    """The expression builds a new container every time it is evaluated (a display, a comprehension, a copying call)."""
+    if isinstance(e, (ast.List, ast.Tuple, ast.Set, ast.ListComp, ast.SetComp, ast.Dict, ast.DictComp)):
+        return True
+    return isinstance(e, ast.Call) and isinstance(e.func, ast.Name) and e.func.id in ("list", "sorted", "set", "tuple", "dict")
 
 
 def join(a: Optional[str], b: Optional[str]) -> Optional[str]:
@@ -223,8 +232,8 @@ class _FuncEffects:
             if isinstance(e.value, ast.Attribute) and e.value.attr in self.eng.immutable_attrs:
                 return None
             if isinstance(e.slice, ast.Slice):
-                return "S"
-            return "R"
+                return "SS" if k == "SS" else "S"
+            return "S" if k == "SS" else "R"
         if isinstance(e, ast.Starred):
             return self.kind(e.value)
         if isinstance(e, (ast.Tuple, ast.List, ast.Set)):
@@ -245,8 +254,12 @@ class _FuncEffects:
             saved = dict(self.env)
             try:
                 for g in e.generators:
-                    self._bind_target(g.target, "R" if self.kind(g.iter) else None)
-                return "S" if self.kind(e.elt) else None
+                    ik = self.kind(g.iter)
+                    self._bind_target(g.target, ("S" if ik == "SS" else "R") if ik else None)
+                ek = self.kind(e.elt)
+                if ek in ("S", "SS") and _fresh_display(e.elt):
+                    return "SS"
+                return "S" if ek else None
             finally:
                 self.env = saved
         if isinstance(e, ast.DictComp):
@@ -350,7 +363,8 @@ class _FuncEffects:
             elif isinstance(n, ast.AnnAssign) and n.value is not None:
                 self._bind_target(n.target, self.kind(n.value))
             elif isinstance(n, (ast.For, ast.AsyncFor)):
-                self._bind_target(n.target, "R" if self.kind(n.iter) else None)
+                ik = self.kind(n.iter)
+                self._bind_target(n.target, ("S" if ik == "SS" else "R") if ik else None)
             elif isinstance(n, ast.With):
                 for it in n.items:
                     if it.optional_vars is not None:
